@@ -143,10 +143,13 @@ Definition links_ok (idf : nat -> str) (disp : list perm) (b : base) (impl_mods 
     (* ... and so has every object a USE imports, with everything under it; an importable entity that A
        displays must be there, one that A does not display may be missing (that costs only the link) *)
     && forallb (fun e => if importable e
-                         then match pub_class (e_kind e) with
+                         then match class_of e with
                               | Some c => match used_lookup xm c (e_name e) with
-                                          | Ok (Some x) => path_ok idf b (Some (e_kind m)) (module_url idf m) e x
-                                          | Ok None => negb (shown disp e)
+                                          | Ok (Some x) =>
+                                            (* the key denotes THAT entity: its own name, its own URLs *)
+                                            json_eq (x_name x) (JStr (e_name (denoted e)))
+                                            && path_ok idf b (Some (e_kind m)) (module_url idf m) e x
+                                          | Ok None => negb (displayed disp e)
                                           | Err _ => false
                                           end
                               | None => true
@@ -155,15 +158,22 @@ Definition links_ok (idf : nat -> str) (disp : list perm) (b : base) (impl_mods 
   | _ => false
   end.
 
+(* A's own URL of what module m makes accessible under the name of e *)
+Definition ent_url (idf : nat -> str) (m e : ent) : option str :=
+  match alias_target e with
+  | Some t => own_url (Some KModule) (own_url None None KModule (idf (e_id e))) (e_kind t) (idf (e_id t))
+  | None => kid_url idf m e
+  end.
+
 (* every entity that the description [impl] names in a table of public names of module m has its page
    among the files A wrote (no dead link can come out of the description) *)
 Definition targets_written (idf : nat -> str) (pages : list str) (impl : json) (m : ent) : bool :=
   let jm := hd JNull (filter (fun j => str_eqb (jname j) (e_name m)) (jlist (jget (s "modules") impl))) in
   match module_url idf m with Some u => str_in (page_of u) pages | None => false end
-  && forallb (fun e => match pub_class (e_kind e) with
+  && forallb (fun e => match class_of e with
                        | Some c =>
                          if str_in (lower (e_name e)) (jkeys (jget c jm))
-                         then match kid_url idf m e with Some u => str_in (page_of u) pages | None => false end
+                         then match ent_url idf m e with Some u => str_in (page_of u) pages | None => false end
                          else true
                        | None => true
                        end) (e_kids m).
